@@ -45,6 +45,8 @@ type freshSpec struct {
 	kind     string // absent | notSequence | empty-value | points
 	points   []dpSpec
 	trailing bool // bytes after the outer SEQUENCE
+	// the list carries the extension a second time, with this value (the first one is the one that is read)
+	again *freshSpec
 }
 
 func tlv(tag byte, content []byte) []byte {
@@ -161,6 +163,11 @@ func (f freshSpec) abs() any {
 }
 
 func (f freshSpec) name() string {
+	if f.again != nil {
+		g := f
+		g.again = nil
+		return g.name() + "+again(" + f.again.name() + ")"
+	}
 	if f.kind != "points" {
 		return f.kind
 	}
@@ -260,6 +267,15 @@ func freshShapes() []freshSpec {
 		points(full(uri(urlD3), uri(urlD2), uri(urlD1))),
 		points(full(uri(urlD3)), full(uri(urlD1))),
 		points(full(uri(urlD2), uri(urlD1), uri(urlD2))),
+		// the extension twice in one list (crypto/x509 refuses that in a certificate, not in a CRL): the first one counts
+		func() freshSpec { f, g := points(full(uri(urlD1))), points(full(uri(urlD1))); f.again = &g; return f }(),
+		func() freshSpec { f, g := points(full(uri(urlD1))), points(full(uri(urlD2))); f.again = &g; return f }(),
+		func() freshSpec {
+			f, g := points(full(uri(urlD2))), freshSpec{kind: "notSequence"}
+			f.again = &g
+			return f
+		}(),
+		func() freshSpec { f, g := points(), points(full(uri(urlD1))); f.again = &g; return f }(),
 	}
 }
 
@@ -309,6 +325,12 @@ func (p *crlPool) get(gen int, validity string, fresh freshSpec) *crlItem {
 	}
 	if raw := fresh.der(); raw != nil {
 		spec.FreshestRaw = raw
+	}
+	if fresh.again != nil {
+		spec.FreshestAgain = fresh.again.der()
+		if spec.FreshestAgain == nil {
+			spec.FreshestAgain = []byte{}
+		}
 	}
 	der := buildCRL(p.issuer, spec)
 	l, err := x509.ParseRevocationList(der)
@@ -366,6 +388,8 @@ type fetchWorld struct {
 	contacts []string
 	cancelAt int
 	cancel   context.CancelFunc
+	// what the responses say about their own length: 0 the truth, 1 unknown (-1), 2 nothing (0)
+	lengthMode int
 }
 
 func (w *fetchWorld) RoundTrip(req *http.Request) (*http.Response, error) {
@@ -381,8 +405,15 @@ func (w *fetchWorld) RoundTrip(req *http.Request) (*http.Response, error) {
 		return nil, req.Context().Err()
 	}
 	reply := func(code int, body []byte) (*http.Response, error) {
+		cl := int64(len(body))
+		switch w.lengthMode {
+		case 1:
+			cl = -1 // unknown: chunked, compressed or close-delimited
+		case 2:
+			cl = 0 // a hand-made response that says nothing
+		}
 		return &http.Response{StatusCode: code, Status: fmt.Sprintf("%d", code), Proto: "HTTP/1.1", ProtoMajor: 1, ProtoMinor: 1,
-			Header: http.Header{}, Body: io.NopCloser(bytes.NewReader(body)), ContentLength: int64(len(body)), Request: req}, nil
+			Header: http.Header{}, Body: io.NopCloser(bytes.NewReader(body)), ContentLength: cl, Request: req}, nil
 	}
 	if !ok {
 		return reply(404, []byte("not found"))
@@ -571,7 +602,7 @@ func runFetchHistory(r *Runner, pool *crlPool, cfg fetchCfg, init func(w *fetchW
 	if fetchHung.Load() {
 		return
 	}
-	w := &fetchWorld{pool: pool, server: map[string]srvAns{}, cache: map[string]*corecrl.Bundle{}}
+	w := &fetchWorld{pool: pool, server: map[string]srvAns{}, cache: map[string]*corecrl.Bundle{}, lengthMode: idx % 3}
 	if init != nil {
 		init(w)
 	}
